@@ -167,10 +167,47 @@ def gen_template(rng):
     return ops + ["hosts 100000"]
 
 
+def gen_tailjoin(rng):
+    """an iterator driven to the end of the list and kept; the last record goes away (pop / own removal / delete by
+    name or position), then a push CONTINUES the new last range (same prefix, lo = hi + 1, same width) so
+    hostlist_push_range joins it; then the iterator goes on.  Also the mirror image at the front."""
+    pre = rng.choice(["a", "foo", "n0", "x9"])
+    lo = rng.choice([1, 4, 8, 97])
+    k = rng.choice([0, 1, 2, 3])
+    w = len(str(lo)) + rng.choice([0, 0, 1])
+    word = "%s[%s-%s]" % (pre, str(lo).zfill(w), str(lo + k).zfill(w)) if k else pre + str(lo).zfill(w)
+    last = rng.choice(["b", "mid", "c7", "z[1-1]"])
+    lastname = "z1" if last.startswith("z[") else last
+    if rng.random() < 0.2:          # at the front
+        ops = ["new", "push %s,%s" % (last, word), "it_new"] + ["it_next 0"] * rng.choice([0, 1, 1]) + \
+              [rng.choice(["shift", "delete_nth 0", "delete_host " + lastname])] + ["it_next 0"] * (k + 3)
+        return ops + ["hosts 100000"]
+    more = rng.choice([[], [], ["q5"]])
+    ops = ["new", "push " + ",".join([word] + more + [last]), "it_new"]
+    n = k + 1 + len(more) + 1
+    ops += ["it_next 0"] * (n + rng.choice([0, 0, 0, 1]))
+    gone = rng.choice(["pop", "pop", "it_remove 0", "delete_host " + lastname, "delete_nth %d" % (n - 1)])
+    if gone == "it_remove 0" and len(ops) - 3 != n:
+        gone = "pop"
+    ops.append(gone)
+    if more and rng.random() < 0.7:
+        ops.append(rng.choice(["pop", "delete_host q5"]))
+    nxt = lo + k + 1
+    j = rng.choice([0, 1, 2])
+    cont = "%s[%s-%s]" % (pre, str(nxt).zfill(w), str(nxt + j).zfill(w)) if j else pre + str(nxt).zfill(w)
+    ops.append("push " + cont)
+    ops += ["it_next 0"] * (j + 3)
+    if rng.random() < 0.3:
+        ops += ["push " + pre + str(nxt + j + 1).zfill(w), "it_next 0", "it_next 0"]
+    return ops + ["hosts 100000"]
+
+
 def gen_history(rng, nops, profile):
     """profile: which risky combinations the history may contain (keeps findings attributable)"""
     if profile in ("own", "pop", "delete") and rng.random() < 0.5:
         return gen_template(rng)
+    if profile == "tailjoin":
+        return gen_tailjoin(rng)
     if profile == "gap":
         return gen_gap(rng)
     g = Guide()
@@ -278,7 +315,7 @@ def gen_history(rng, nops, profile):
 # ------------------------------------------------------------------ judging
 def events(ops, states, upto, k, sp=None):
     """risk events that touched iterator k (k < 0: any) before op index `upto`, read off the plain-list run:
-    E push while the iterator stood at the end, A other push, D delete by name/position, P pop, S shift,
+    E push while the iterator stood at the end (X: after it had already answered NULL), A other push, D delete by name/position, P pop, S shift,
     Q pop of the host the iterator stands on (it returned that host last), R own removal, M removal through another
     iterator, U uniq/sort, Z one of these mutations left the list EMPTY, N the iterator's last restart is a uniq/sort that left the list as it was while the
     iterator was not at the start; only events since the iterator's last (re)start"""
@@ -313,7 +350,7 @@ def events(ops, states, upto, k, sp=None):
         elif w[0] == "push" and i > 0 and states[i - 1] is not None:
             ln, cur = states[i - 1]
             at_end = (cur.get(k) == ln) if k >= 0 else any(c == ln for c in cur.values())
-            ev.add("E" if at_end else "A")
+            ev.add("X" if at_end and beyond else "E" if at_end else "A")     # X: the iterator had already answered NULL
         elif w[0] == "shift":
             ev.add("S")
         elif w[0] in ("uniq", "sort") and i > start:
@@ -487,7 +524,7 @@ def run(ctx):
                    "an iterator is live, or a find/delete/uniq on a list with >= 3 hosts; distinct = distinct history text"}
     dist = {"ops": 0, "profiles": {}, "ub-predicted": 0, "crash": 0}
     if hl.build():
-        profiles = ["own", "own", "shift", "pop", "delete", "endpush", "multi", "uniq", "big", "free", "free", "noiter", "noiter", "gap"]
+        profiles = ["own", "own", "shift", "pop", "delete", "endpush", "multi", "uniq", "big", "free", "free", "noiter", "noiter", "gap", "tailjoin"]
         if ctx.replay:
             seqs = [json.load(open(ctx.replay))["case"]["ops"]]
             profs = ["replay"]
